@@ -1,13 +1,19 @@
-(* C10.v — CDCN round trip, FORMAT HALF: FormatValue is a total, pure function of its argument
+(* C10.v — CDCN round trip.  FORMAT HALF: FormatValue is a total, pure function of its argument
    whose text is the rendering of a token list, elides what is nested deeper than its limit
    (self-containing values included) and does not depend on numeric widths or on earlier calls.
-   (The parse half and the composed round-trip theorem belong to the scanner / parser model.)
+   COMPOSITION with the scanner / parser model (Lexer.v, Literals.v, Parser.v; second part of this
+   file, C10_round_trip...): ParseSource(FormatValue(v)) = canon v for every value of the round-trip
+   universe rt_ok, under the oracle hypothesis floats_roundtrip on the two strconv float conversions;
+   the literal inverses; the text fixpoint; equality under CompareValues.
    Statements only: every theorem is closed by [exact] of a lemma proved in FormatProofs.v /
    FormatText.v, and its assumptions are printed.  The model is Formatter.v; [ftext] and [printable] are the
    strconv oracles (text of FormatFloat(f,'G',-1,64); IsPrint above ASCII), universally
    quantified here and supplied and checked per case by the harness. *)
 From Coq Require Import String.
 From Verif Require Import Params Base Value Formatter FormatSpec FormatProofs FormatText FormatBound.
+From Verif Require Lexer Literals Parser LexBridge LexBridge2 Complete LexRender ParseRun CollateCompare.
+From Verif Require RoundTripLit RoundTripLeaf RoundTripScan RoundTripDeriv RoundTripProofs RoundTripSets RoundTripTotal.
+From Verif Require Import RoundTrip.
 Open Scope Z_scope.
 
 (* ---- format_total: every call ends (the model has no fuel), and what it returns is decided by
@@ -214,6 +220,290 @@ Example C10_ex_rejected_key :
   format0 ex_ftext ex_print 8 (VMapping MCatalog [VSeq KList []] [VNil]) = Panic.
 Proof. vm_compute. reflexivity. Qed.
 
+
+(* ====================================================================================== *)
+(* THE COMPOSED ROUND TRIP                                                                *)
+(* ====================================================================================== *)
+(* Definitions (RoundTrip.v): [canon crank v] = what the parser builds from the text of v (Go slices
+   as Arrays, Go maps as Maps, every integer width as int64 / uint64, floats as float64, complex
+   numbers as complex128 with the collator oracle fields 0, a Set in the order Parser.set_build gives
+   its members under the ranking [crank]); [rt_ok crank maximum v] = the round-trip universe (a
+   collection within the depth limit whose items are well-formed intrinsic values — numbers inside
+   their Go type, VALID runes, byte strings — or such collections; associations only as entries of a
+   Catalog / Map, with intrinsic keys that stay pairwise different after the round trip; no Set
+   constructor panic); [floats_roundtrip fparse ftext v] = for every float in v Go's %G text has
+   the %G shape and ParseFloat gives the bits back from what formatFloat writes (for a negative
+   imaginary part: from the text behind its minus sign, negated) — the oracle hypothesis the C10
+   harness checks on every float of every generated value. *)
+
+(* ---- 1. literal inverses, each for ALL inputs of its class ---- *)
+Theorem C10_round_trip_decimal :
+  forall z : Z, Literals.min_int64 <= z <= Literals.max_int64 -> Literals.parse_int (dec_text z) = Some z.
+Proof. exact RoundTripLit.parse_int_dec_text. Qed.
+
+Theorem C10_round_trip_hexadecimal :
+  forall z : Z, 0 <= z < Literals.two64 -> Literals.parse_hex (hex_text z) = Some z.
+Proof. exact RoundTripLit.parse_hex_hex_text. Qed.
+
+(* every VALID rune, whatever strconv.IsPrint answers; an invalid one (surrogate, negative, above
+   U+10FFFF) is written as U+FFFD by QuoteRune and comes back as 65533: outside the universe *)
+Theorem C10_round_trip_rune :
+  forall (printable : Z -> bool) (r : Z), valid_rune r = true ->
+    Literals.rune_value (quote_rune printable r) = Some r.
+Proof. exact RoundTripLit.rune_value_quote_rune. Qed.
+Theorem C10_round_trip_rune_invalid_refuted :
+  exists r, valid_rune r = false /\ Literals.rune_value (quote_rune (fun _ => true) r) = Some 65533.
+Proof. exact RoundTripLit.rune_value_invalid_refuted. Qed.
+
+(* EVERY byte string, valid UTF-8 or not (a byte that starts no valid sequence is written \xNN and
+   comes back as that byte) *)
+Theorem C10_round_trip_string :
+  forall (printable : Z -> bool) (s : list Z), forallb RoundTripLit.is_byte s = true ->
+    Literals.string_value (quote_str printable s) = Some s.
+Proof. exact RoundTripLit.string_value_quote_str. Qed.
+
+Theorem C10_round_trip_boolean :
+  forall b : bool, Literals.parse_bool (if b then s2z "true" else s2z "false") = b.
+Proof. exact RoundTripLit.parse_bool_text. Qed.
+
+(* all literal kinds at once (nil, floats and complex numbers included): the formatter's token of a
+   well-formed intrinsic value is a literal token whose Literals.literal_value is that value at the
+   canonical width *)
+Theorem C10_round_trip_literal :
+  forall (fparse : list Z -> option Z) (ftext : Z -> list Z) (printable : Z -> bool) (v : val) (t : ftoken),
+    leaf_token ftext printable v = Some t -> leaf_ok v = true -> leaf_floats fparse ftext v = true ->
+    Complete.litv fparse (mk (conv t)) (canon_leaf v).
+Proof. exact RoundTripLeaf.leaf_litv. Qed.
+
+(* ---- 2. bridges: the formatter's text functions produce texts of the lexer-side predicates ---- *)
+Theorem C10_bridge_integer : forall z : Z, LexBridge.int_text (dec_text z).
+Proof. exact RoundTripLeaf.int_text_dec. Qed.
+Theorem C10_bridge_float : forall t : list Z, g_shape t = true -> LexBridge2.float_text (fix_float t).
+Proof. exact RoundTripLeaf.float_text_fix. Qed.
+(* every literal token, followed by a separator, is picked by the scanner as exactly that token *)
+Theorem C10_bridge_literal :
+  forall (fparse : list Z -> option Z) (ftext : Z -> list Z) (printable : Z -> bool) (v : val) (t : ftoken)
+         (rest : list LexRender.rtok),
+    leaf_token ftext printable v = Some t -> leaf_floats fparse ftext v = true ->
+    LexRender.scannable rest -> LexBridge.sep_start (LexRender.render_toks rest) ->
+    LexRender.scannable (conv t :: rest).
+Proof. exact RoundTripLeaf.leaf_scan. Qed.
+
+(* ---- 3. scannability of the formatter's token list, hence lex (render ts) = ts positioned ---- *)
+Theorem C10_round_trip_scannable :
+  forall (fparse : list Z -> option Z) (ftext : Z -> list Z) (printable : Z -> bool) (maximum : nat)
+         (v : val) (ts : list ftoken),
+    tokens_of ftext printable maximum v = Some ts -> has_elision ts = false ->
+    floats_roundtrip fparse ftext v = true ->
+    LexRender.scannable (map (fun t => (lty (tk_type t), tk_text t)) ts).
+Proof. exact RoundTripScan.tokens_of_scannable. Qed.
+
+Theorem C10_round_trip_lexes :
+  forall (fparse : list Z -> option Z) (ftext : Z -> list Z) (printable : Z -> bool) (maximum : nat)
+         (v : val) (ts : list ftoken),
+    tokens_of ftext printable maximum v = Some ts -> has_elision ts = false ->
+    floats_roundtrip fparse ftext v = true ->
+    Lexer.lex (render ts) = LexRender.place (convs ts) 1 1.
+Proof. exact RoundTripProofs.round_trip_lexes. Qed.
+
+(* ---- 4. the visible tokens are a derivation of the grammar with value canon v ---- *)
+Theorem C10_round_trip_derivation :
+  forall (fparse : list Z -> option Z) (crank : val -> val -> option comparison) (ftext : Z -> list Z)
+         (printable : Z -> bool) (maximum : nat) (v : val) (d n : nat) (ts : list ftoken),
+    tokens_at ftext printable maximum d n v = Some ts -> has_elision ts = false ->
+    rt_val crank v = true -> floats_roundtrip fparse ftext v = true ->
+    Complete.dvalue fparse crank (vis ts) (canon crank v) /\
+    (is_collection v = true -> Complete.dcoll fparse crank (vis ts) (canon crank v)).
+Proof. exact RoundTripDeriv.tokens_derive. Qed.
+
+(* ---- 5. THE THEOREM ---- *)
+Theorem C10_round_trip :
+  forall (fparse : list Z -> option Z) (crank : val -> val -> option comparison) (ftext : Z -> list Z)
+         (printable : Z -> bool) (maximum : nat) (v : val) (text : list Z),
+    rt_ok crank maximum v = true -> floats_roundtrip fparse ftext v = true ->
+    format0 ftext printable maximum v = Ret text ->
+    Parser.parse_source fparse crank text = Parser.PValue (canon crank v).
+Proof. exact RoundTripProofs.round_trip. Qed.
+
+(* FormatValue accepts every value of the universe (no pointer, every key an intrinsic): the two
+   together — ParseSource(FormatValue(v)) SUCCEEDS and gives canon v *)
+Theorem C10_round_trip_total :
+  forall (fparse : list Z -> option Z) (crank : val -> val -> option comparison) (ftext : Z -> list Z)
+         (printable : Z -> bool) (maximum : nat) (v : val),
+    rt_ok crank maximum v = true -> floats_roundtrip fparse ftext v = true ->
+    exists text, format0 ftext printable maximum v = Ret text /\
+                 Parser.parse_source fparse crank text = Parser.PValue (canon crank v).
+Proof. exact RoundTripTotal.round_trip_total. Qed.
+
+(* on the canonical dynamic types, with every Set listed in collator order, nothing changes *)
+Theorem C10_round_trip_canonical :
+  forall (crank : val -> val -> option comparison) (v : val),
+    canonical v = true -> sets_sorted crank v -> canon crank v = v.
+Proof. exact RoundTripProofs.canon_canonical. Qed.
+
+(* equality under CompareValues (Value.compare0, the collator model of C07 / C08): the parser
+   leaves the two collator oracle fields of a complex number (cmplx.Abs, cmplx.Phase — functions of
+   the two parts) at 0; ParseRun.decorate fills them in from a table, as the C11 correspondence does.
+   With them restored the parsed value is the original one and CompareValues answers true (C08's
+   compare_refl: the value is inside C08's universe inW — within the collator's depth limit, Map
+   keys without NaN / complex numbers). *)
+Theorem C10_round_trip_equal :
+  forall (fparse : list Z -> option Z) (crank : val -> val -> option comparison) (ftext : Z -> list Z)
+         (printable : Z -> bool) (maximum M : nat) (tbl : list (Z * Z * (Z * Z))) (v : val) (text : list Z),
+    rt_ok crank maximum v = true -> floats_roundtrip fparse ftext v = true ->
+    ParseRun.decorate tbl (canon crank v) = v -> CollateCompare.inW M v = true ->
+    format0 ftext printable maximum v = Ret text ->
+    exists p, Parser.parse_source fparse crank text = Parser.PValue p /\
+              compare0 M v (ParseRun.decorate tbl p) = R true.
+Proof. exact RoundTripProofs.round_trip_equal. Qed.
+(* the hypothesis on the table holds with the empty table for a canonical value *)
+Theorem C10_round_trip_equal_table :
+  forall (crank : val -> val -> option comparison) (v : val),
+    canonical v = true -> sets_sorted crank v -> ParseRun.decorate [] (canon crank v) = v.
+Proof. exact RoundTripProofs.decorate_canonical. Qed.
+
+(* THE TEXT FIXPOINT: formatting what the parser built gives the same text, for EVERY value whose
+   Sets are listed in collator order (narrower widths, Go slices and Go maps included; a Map with
+   its entries in the order of the text, which is the order canon keeps) *)
+Theorem C10_text_fixpoint :
+  forall (crank : val -> val -> option comparison) (ftext : Z -> list Z) (printable : Z -> bool)
+         (maximum : nat) (v : val),
+    sets_sorted crank v ->
+    format0 ftext printable maximum (canon crank v) = format0 ftext printable maximum v.
+Proof. exact RoundTripProofs.text_fixpoint. Qed.
+
+(* a sufficient condition for the Set clause of sets_sorted: the members, as the parser will see
+   them, are listed in strictly ascending collator order — every member ranks Greater than every
+   member before it (no transitivity of the ranking is needed).  Then the binary search of the
+   Set constructor puts every member behind the last one. *)
+Theorem C10_sets_sorted_ascending :
+  forall (crank : val -> val -> option comparison) (l : list val),
+    RoundTripSets.ascending crank [] (map (canon crank) l) ->
+    Parser.set_build crank [] (map (canon crank) l) = Some (map (canon crank) l).
+Proof. exact RoundTripSets.ascending_sorted. Qed.
+(* ---- elided values are not parsed ----
+   FULL STATEMENT (not proved): for every v with nest_depth v > maximum that FormatValue accepts,
+     exists t, parse_source fparse crank (text of v) = PSyntax t /\ ttype_of t = TError /\ tval t = "."
+   PROVED: the chains of single-item sequences deeper than the default limit (every unfolding of a
+   self-containing list / array / set / stack / queue, any kind): the diagnostic names the first dot,
+   line 1, position 10.  MISSING for the full statement: the scanner on a scannable PREFIX followed by
+   arbitrary text (LexRender.scannable speaks of whole renderings) and the parser on a proper prefix
+   of a derivation followed by an Error token (Complete.v speaks of whole derivations). *)
+Theorem C10_elided_not_parsed_partial :
+  forall (fparse : list Z -> option Z) (crank : val -> val -> option comparison) (ftext : Z -> list Z)
+         (printable : Z -> bool) (k : skind) (n : nat),
+    (Z.to_nat formatter_default_maximum < n)%nat ->
+    exists text t,
+      format0 ftext printable (Z.to_nat formatter_default_maximum) (selfnest k n) = Ret text /\
+      Parser.parse_source fparse crank text = Parser.PSyntax t /\
+      Lexer.ttype_of t = Lexer.TError /\ Lexer.tval t = [46] /\ Lexer.tline t = 1 /\ Lexer.tpos t = 10.
+Proof. exact RoundTripProofs.elided_selfnest_not_parsed. Qed.
+
+(* ---- non-vacuity of the composed theorem, and what falls outside its universe ---- *)
+(* oracles of the examples: %G texts and ParseFloat for 1e6, 1.5e-7 and -1.5e-7 *)
+Definition rt_ftext (b : Z) : list Z :=
+  if b =? 4696837146684686336 then s2z "1E+06"
+  else if b =? 13728134904377344886 then s2z "-1.5E-07" else s2z "1.5E-07".
+Definition rt_fparse (t : list Z) : option Z :=
+  if list_eqb Z.eqb t (s2z "1.0E+6") then Some 4696837146684686336
+  else if list_eqb Z.eqb t (s2z "1.5E-7") then Some 4504762867522569078
+  else if list_eqb Z.eqb t (s2z "-1.5E-7") then Some 13728134904377344886 else None.
+Definition rt_crank : val -> val -> option comparison := ParseRun.default_crank [].
+(* a Catalog (keys: string, rune, negative integer, float) of a List with every simple literal kind
+   (string with an escape, an invalid UTF-8 byte and a 2-byte sequence), a Set in collator order, a
+   Map with a complex value whose imaginary part is negative, an empty Stack and a Queue *)
+Definition rt_example : val :=
+  VMapping MCatalog
+    [VStr [97]; VRune 233; VInt 64 (-7); VFloat 64 4696837146684686336]
+    [VSeq KList [VInt 64 1; VUint 64 255; VBool true; VNil; VStr [34; 255; 195; 169; 10]; VRune 39];
+     VSeq KSet [VInt 64 1; VInt 64 2; VInt 64 3];
+     VMapping MMap [VBool false] [VComplex 128 4504762867522569078 13728134904377344886 0 0];
+     VSeq KArray [VSeq KStack []; VSeq KQueue [VFloat 64 4504762867522569078]]].
+Example C10_ex_round_trip_hypotheses :
+  rt_ok rt_crank 8 rt_example = true /\ floats_roundtrip rt_fparse rt_ftext rt_example = true
+  /\ canonical rt_example = true /\ CollateCompare.inW 16 rt_example = true.
+Proof. vm_compute. repeat split; reflexivity. Qed.
+Example C10_ex_sets_sorted : sets_sorted rt_crank rt_example.
+Proof. cbn [sets_sorted fold_right]. repeat split; try (intros; discriminate); intros _; vm_compute; reflexivity. Qed.
+Example C10_ex_ascending :
+  RoundTripSets.ascending rt_crank [] (map (canon rt_crank) [VBool true; VInt 8 (-3); VInt 64 2; VRune 97; VStr [97]; VUint 64 5]).
+Proof. cbn [map RoundTripSets.ascending app]. repeat split; intros x Hx; cbn [In] in Hx; intuition (subst; vm_compute; reflexivity). Qed.
+(* the conclusion of C10_round_trip on the example, by evaluating both models *)
+Example C10_ex_round_trip :
+  format0 rt_ftext (fun _ => false) 8 rt_example = Ret (s2z "[
+    ""a"": [
+        1
+        0xff
+        true
+        nil
+        ""\""\xff\u00e9\n""
+        '\''
+    ](List)
+    '\u00e9': [
+        1
+        2
+        3
+    ](Set)
+    -7: [false: (1.5E-7-1.5E-7i)](Map)
+    1.0E+6: [
+        [ ](Stack)
+        [1.5E-7](Queue)
+    ](Array)
+](Catalog)
+") /\
+  match format0 rt_ftext (fun _ => false) 8 rt_example with
+  | Ret text => Parser.parse_source rt_fparse rt_crank text
+  | _ => Parser.POutOfFuel
+  end = Parser.PValue rt_example.
+Proof. vm_compute. split; reflexivity. Qed.
+(* a value of class 1 (narrower widths, a Go slice, a Go map): the parser's value is canon v *)
+Definition rt_example_narrow : val :=
+  VSeq KSlice [VInt 8 (-5); VByte 255; VFloat 32 4696837146684686336; VNilSlice;
+               VMapping MGoMap [VUint 16 7] [VComplex 64 4696837146684686336 4504762867522569078 3 4]].
+Example C10_ex_round_trip_narrow :
+  rt_ok rt_crank 8 rt_example_narrow = true /\ floats_roundtrip rt_fparse rt_ftext rt_example_narrow = true /\
+  canon rt_crank rt_example_narrow =
+    VSeq KArray [VInt 64 (-5); VUint 64 255; VFloat 64 4696837146684686336; VSeq KArray [];
+                 VMapping MMap [VUint 64 7] [VComplex 128 4696837146684686336 4504762867522569078 0 0]].
+Proof. vm_compute. repeat split; reflexivity. Qed.
+
+(* OUTSIDE the universe, and why (each replayed on the real code, see docs/C10.md):
+   two keys that differ only in their width are ONE key after the round trip — the parsed Catalog
+   has one entry, CompareValues answers false and the second text differs although the value is
+   built from "narrower numeric widths" only (FormatSpec.val_class = 1).  rt_ok excludes it through
+   fresh_keys (map canon_leaf ks). *)
+Definition rt_narrow_keys : val := VMapping MCatalog [VInt 8 5; VInt 16 5] [VInt 64 1; VInt 64 2].
+Theorem C10_text_fixpoint_narrow_keys_refuted :
+  exists v text p,
+    val_class v = 1%nat /\ format0 rt_ftext ex_print 8 v = Ret text /\
+    Parser.parse_source rt_fparse rt_crank text = Parser.PValue p /\
+    p = VMapping MCatalog [VInt 64 5] [VInt 64 2] /\
+    format0 rt_ftext ex_print 8 p <> Ret text /\ rt_ok rt_crank 8 v = false.
+Proof.
+  exists rt_narrow_keys. eexists. eexists. split; [reflexivity|]. split; [vm_compute; reflexivity|].
+  split; [vm_compute; reflexivity|]. split; [reflexivity|]. split; [vm_compute; discriminate|reflexivity].
+Qed.
+(* a Set listed in an order the constructor does not produce (here: the order of uint8 "byte" before
+   int16 "integer" that becomes "unsigned" after "integer" once the byte has come back as uint64):
+   the parsed Set is re-ordered, so the text fixpoint needs sets_sorted (the known finding
+   fixes/known-set-order-depends-on-width.json) *)
+Theorem C10_text_fixpoint_unsorted_set_refuted :
+  exists v text p,
+    rt_ok rt_crank 8 v = true /\ format0 rt_ftext ex_print 8 v = Ret text /\
+    Parser.parse_source rt_fparse rt_crank text = Parser.PValue p /\ p = canon rt_crank v /\
+    format0 rt_ftext ex_print 8 p <> Ret text.
+Proof.
+  exists (VSeq KSet [VByte 7; VInt 16 26660]). eexists. eexists. split; [reflexivity|]. split; [vm_compute; reflexivity|].
+  split; [vm_compute; reflexivity|]. split; [vm_compute; reflexivity|]. vm_compute; discriminate.
+Qed.
+(* the elided text of TestFormatMaximum's value at limit 1: rejected at the first dot, line 3 *)
+Example C10_ex_elided_not_parsed :
+  match format0 ex_ftext ex_print 1 ex_nested with
+  | Ret text => Parser.parse_source rt_fparse rt_crank text
+  | _ => Parser.POutOfFuel
+  end = Parser.PSyntax (Lexer.mkTok Lexer.TError [46] 3 6).
+Proof. vm_compute. reflexivity. Qed.
+
 Print Assumptions C10_format_total.
 Print Assumptions C10_format_tokens.
 Print Assumptions C10_format_elides.
@@ -233,3 +523,26 @@ Print Assumptions C10_rune_text_ok.
 Print Assumptions C10_string_text_ok.
 Print Assumptions C10_int_text_ok.
 Print Assumptions C10_hex_text_ok.
+Print Assumptions C10_round_trip_decimal.
+Print Assumptions C10_round_trip_hexadecimal.
+Print Assumptions C10_round_trip_rune.
+Print Assumptions C10_round_trip_rune_invalid_refuted.
+Print Assumptions C10_round_trip_string.
+Print Assumptions C10_round_trip_boolean.
+Print Assumptions C10_round_trip_literal.
+Print Assumptions C10_bridge_integer.
+Print Assumptions C10_bridge_float.
+Print Assumptions C10_bridge_literal.
+Print Assumptions C10_round_trip_scannable.
+Print Assumptions C10_round_trip_lexes.
+Print Assumptions C10_round_trip_derivation.
+Print Assumptions C10_round_trip.
+Print Assumptions C10_round_trip_total.
+Print Assumptions C10_round_trip_canonical.
+Print Assumptions C10_round_trip_equal.
+Print Assumptions C10_round_trip_equal_table.
+Print Assumptions C10_text_fixpoint.
+Print Assumptions C10_sets_sorted_ascending.
+Print Assumptions C10_elided_not_parsed_partial.
+Print Assumptions C10_text_fixpoint_narrow_keys_refuted.
+Print Assumptions C10_text_fixpoint_unsorted_set_refuted.
